@@ -46,6 +46,9 @@ type Case struct {
 	Band    *gen.F    `json:"band,omitempty"`   // long: half-width of the latitude band, degrees
 	Reps    int       `json:"reps,omitempty"`   // long: repetitions of the measured calls inside one evaluation
 	Sweep   int       `json:"sweep,omitempty"`  // long: PointAtDistanceAlongLine requests per repetition
+	Dim     string    `json:"dim,omitempty"`    // large: size dimension (N is the size)
+	Shape   string    `json:"shape,omitempty"`  // large: structured shape
+	Win     [][2]int  `json:"win,omitempty"`    // alias: members as (start, length) windows of the point buffer in Line
 }
 
 func fp(v float64) *gen.F { f := gen.F(v); return &f }
@@ -91,6 +94,12 @@ func checkCase(c Case) error {
 			return fmt.Errorf("harness: malformed ring case")
 		}
 		return checkRing(gen.OrbPts(c.Ring), c.Layout, nz)
+	case "large":
+		return checkLarge(c)
+	case "alias":
+		return checkAlias(c, nz)
+	case "shared":
+		return checkShared(c)
 	case "long":
 		if c.P1 == nil || c.Step == nil || c.Band == nil || c.N < 2 {
 			return fmt.Errorf("harness: malformed long case")
@@ -598,12 +607,20 @@ func drawRing(rt *rapid.T) *drawn {
 	d := &drawn{}
 	class := rapid.SampledFrom([]string{"star", "star", "lattice", "arbitrary", "repeats"}).Draw(rt, "rclass")
 	n := rapid.IntRange(3, 12).Draw(rt, "n")
+	if rapid.IntRange(0, 149).Draw(rt, "rare large") == 97 { // rare: ring sizes around 64, 128, 512
+		n = rapid.SampledFrom([]int{62, 63, 64, 65, 66, 67, 127, 128, 129, 130, 511, 512, 513, 514, 515}).Draw(rt, "nlarge")
+		class = rapid.SampledFrom([]string{"star", "repeats"}).Draw(rt, "rclass large")
+	}
 	scale := logUniform(rt, -3, 0.5, "scale")
 	verts := genRingVerts(rt, genCentre(rt), scale, n, class)
 	c := Case{Kind: "ring", Ring: gen.Pts(verts), Layout: rapid.SampledFrom(layouts).Draw(rt, "layout")}
 	d.class("ring:" + class)
 	d.class("layout(ring):" + c.Layout)
-	d.class(fmt.Sprintf("ring*:%02d vertices", n))
+	if n > 12 {
+		d.class("ring*:large (62..515 vertices)")
+	} else {
+		d.class(fmt.Sprintf("ring*:%02d vertices", n))
+	}
 	if n >= 5 {
 		d.nt, d.group = true, "ring:"+class
 	}
@@ -642,6 +659,9 @@ func genPolygon(t *rapid.T, c orb.Point, scale float64) orb.Polygon {
 	}
 	p := orb.Polygon{genRingMember(t, c, scale)}
 	holes := rapid.IntRange(0, 3).Draw(t, "holes")
+	if rapid.IntRange(0, 199).Draw(t, "rare many holes") == 131 {
+		holes = rapid.IntRange(63, 70).Draw(t, "many holes")
+	}
 	for i := 0; i < holes; i++ {
 		hc := orb.Point{c[0] + 0.05*scale*rapid.Float64Range(-1, 1).Draw(t, "hx"), c[1] + 0.05*scale*rapid.Float64Range(-1, 1).Draw(t, "hy")}
 		p = append(p, genRingMember(t, hc, 0.04*scale))
@@ -668,6 +688,9 @@ func genMember(t *rapid.T, c orb.Point, scale float64, depth int) orb.Geometry {
 		return genPolygon(t, c, scale)
 	case "MultiPolygon":
 		n := rapid.IntRange(0, 3).Draw(t, "np")
+		if rapid.IntRange(0, 199).Draw(t, "rare many polygons") == 131 {
+			n = rapid.IntRange(63, 70).Draw(t, "many polygons")
+		}
 		mp := make(orb.MultiPolygon, 0, n)
 		for i := 0; i < n; i++ {
 			pc := orb.Point{c[0] + 2.5*scale*float64(i), c[1]}
@@ -693,6 +716,9 @@ func genMember(t *rapid.T, c orb.Point, scale float64, depth int) orb.Geometry {
 		return orb.LineString(genLocalPoints(t, c, scale, 0, rapid.SampledFrom([]int{6, 6, 6, 24}).Draw(t, "maxlen")))
 	case "MultiLineString":
 		n := rapid.IntRange(0, 3).Draw(t, "nl")
+		if rapid.IntRange(0, 199).Draw(t, "rare many lines") == 131 {
+			n = rapid.IntRange(63, 70).Draw(t, "many lines")
+		}
 		ml := make(orb.MultiLineString, n)
 		for i := range ml {
 			ml[i] = orb.LineString(genLocalPoints(t, c, scale, 0, rapid.SampledFrom([]int{5, 5, 5, 20}).Draw(t, "maxlen")))
@@ -700,6 +726,9 @@ func genMember(t *rapid.T, c orb.Point, scale float64, depth int) orb.Geometry {
 		return ml
 	}
 	n := rapid.IntRange(0, 4).Draw(t, "nc")
+	if depth == 2 && rapid.IntRange(0, 99).Draw(t, "rare many members") == 61 {
+		n = rapid.IntRange(63, 70).Draw(t, "many members")
+	}
 	col := make(orb.Collection, 0, n)
 	for i := 0; i < n; i++ {
 		col = append(col, genMember(t, c, scale, depth-1))
